@@ -86,10 +86,12 @@ def sweep(tier, seed):
     rng = Rng(seed * 3 + 2)
     cases = []
     k = 0
-    fms = [4096, 4097, 8192] if tier == "quick" else [4096, 4097, 4104, 8192, 131072]
+    fms = [4096, 4097, 8192, 131072] if tier == "quick" else [4096, 4097, 4104, 8192, 131072]
     for fm in fms:
         lim = fm - 8
         lens = [0, 1, 2, lim - 1, lim, lim + 1, 2 * lim - 1, 2 * lim, 2 * lim + 1, 3 * lim, 3 * lim + 1]
+        if tier == "quick" and fm == 131072:
+            lens = [32768, 40000, lim - 1, lim, lim + 1, 2 * lim + 1]
         if tier != "quick":
             lens += [rng.randint(0, 4 * lim) for _ in range(6)]
         for n in lens:
@@ -109,6 +111,11 @@ def sweep(tier, seed):
     g.open(1)
     g.call(1, "publish", [X("e"), X("k"), B(True), B(False), X(apigen.rprops(rng)), X(bytes(range(256)) * 64)])
     cases.append(Case("s-max", g.ops, {"keep_prefix": 1}))
+    for n in (100000, 300000):
+        g = ApiGen(rng, 2 ** 32 - 1)
+        g.open(2)
+        g.call(2, "publish", [X("e"), X("k"), B(False), B(False), X(apigen.rprops(rng)), X(bytes((i * 5 + n) % 256 for i in range(n)))])
+        cases.append(Case("s-max%d" % n, g.ops, {"keep_prefix": 1}))
     return cases
 
 
